@@ -331,6 +331,10 @@ def run_check(check, tier, seed, replay=None):
             except Exception as e:
                 harness_errors.append(f'true CLI run failed: {e!r}')
                 continue
+            if o.get('timed_out') == 'wall' or co.get('timed_out') == 'wall':
+                # the generous wall-clock watchdog fired on one side (a loaded machine): says nothing about agreement
+                cross['skipped_wall_timeouts'] = cross.get('skipped_wall_timeouts', 0) + 1
+                continue
             cross['checked'] += 1
             if not runner.same_observables(o, co):
                 cross['mismatch'] += 1
